@@ -470,6 +470,12 @@ impl Sched {
         self.lock().steps
     }
 
+    /// Faults (buggify outcomes) are only injected before the fault horizon.
+    pub fn faults_allowed(&self) -> bool {
+        let st = self.lock();
+        st.steps < st.fair_after
+    }
+
     pub fn aborted(&self) -> bool {
         self.lock().abort.is_some()
     }
